@@ -770,8 +770,6 @@ where
             .await
             {
                 Ok(ControlFlow::Continue(())) => {
-                    let request =
-                        request.with_new_metadata(Default::default());
                     let stream = next_svc.call(request).await;
                     MiddlewareStream::IdentityStream(stream)
                 }
